@@ -221,6 +221,10 @@ class _Unused:
 # One check run
 # ----------------------------------------------------------------------------------------------
 
+# defects that surface through every oracle that compiles generated programs: recognised by their diagnostic
+CROSS_CUTTING = [(r'circular dependency of (\x1b\[[0-9;]*m)?In', 'in-element-unified-with-its-list-source')]
+
+
 class Check:
 
   def __init__(self, pid, tier, seed):
@@ -294,6 +298,9 @@ class Check:
 
   def violation(self, key, what, replay):
     """A concrete input on which the real code violates the property."""
+    for pat, canonical in CROSS_CUTTING:
+      if re.search(pat, what):
+        key = canonical       # one defect seen through the oracles of several properties keeps one key
     for e in self._known:
       if e['key'] == key:
         self.known_hits.setdefault(key, e)
